@@ -67,6 +67,10 @@ func (root *Root) ResolveExecutable(
 	// Returned error can be either an array of errors as a Errors, an Error,
 	// or just a plain fmt.Errorf() return.
 
+	if root.schema == nil {
+		// Nothing was loaded or what was loaded was refused.
+		return nil, resError(0, 0, "no schema has been loaded")
+	}
 	op := exe.Ops[opName]
 	if op == nil {
 		if len(exe.Ops) == 1 && len(opName) == 0 {
